@@ -435,6 +435,10 @@ def same_value_text(a, b):
 
 
 TABLE_POOL = [("num", x) for x in NUMS] + [("str", t) for t in ("", "a", "ab", "12")] + [ref.TRUE, ref.FALSE, ref.NIL, ("vec", [ref.num(1), ref.num(2)]), ("vec", [])]
+# tuples that differ only in the order or the repetition of their elements (equality is element by element, whatever a hash says), nested
+TABLE_POOL += [("tuple", [ref.num(1), ref.num(2)]), ("tuple", [ref.num(2), ref.num(1)]), ("tuple", [ref.num(1), ref.num(1)]), ("tuple", [ref.num(2), ref.num(2)]),
+               ("tuple", [("tuple", [ref.num(1), ref.num(2)]), ref.num(3)]), ("tuple", [("tuple", [ref.num(2), ref.num(1)]), ref.num(3)]), ("tuple", []),
+               ("tuple", [ref.num(1)]), ("tuple", [("str", "a"), ref.NIL]), ("tuple", [ref.NIL, ("str", "a")])]
 
 
 def operator_table_cases():
